@@ -14,17 +14,8 @@
      C09_idem         : ... /\ printed pr ss' text                                       PROVED
                         (both together: C09_normal_form : normal_form pr l text)
      C09_same_reports : ... /\ forall cfg, balance_csv cfg ss' ~ balance_csv cfg ss
-                            /\ forall cfg tc, balance_text cfg tc ss' ~ balance_text cfg tc ss
-                        PROVED UP TO the representation of quantities (C09_same_reports_partial):
-                        ss' = map rq_sdir ss1 where ss1 is a permutation of the directives the
-                        journal denotes and has the journal's reports; rq_sdir replaces every
-                        quantity q by the value-equal [reread q] (what Decimal.String followed by
-                        NewFromString makes of it).  MISSING LEMMA, precisely:
-                          forall cfg ss1, ceq eq (balance_csv cfg (map rq_sdir ss1)) (balance_csv cfg ss1)
-                        (value-equal quantities give the same report bytes: a simulation of
-                        ComputePrices, Valuate, Filter, CloseAccounts, Query.Into and the renderer
-                        under PrintRequant/CheckQuant's relation; done for the checker only,
-                        C09_check_sees_values).
+                            /\ forall cfg tc, balance_text cfg tc ss' ~ balance_text cfg tc ss   PROVED
+                        (all of it for one and the same ss': C09_roundtrip)
    [~] is "both commands fail, or the same bytes" (OrderCmd.ceq eq): the error of a failing balance
    run legitimately depends on the order of the directives (C05_error_depends_on_order).  The
    report statement also carries C05's exclusion [no_conflicting_prices].
@@ -42,13 +33,27 @@
          and RoundTripFile.parse_woven (C08's context lemmas) reads it; ToModel is a function of the
          meaning.  Proofs/PrintSem.v, PrintWeave.v, PrintLex.v, PrintText.v.
      (b) decimal text is a normal form: to_string (of_string (to_string q)) = to_string q
-         (C09_decimal_normal_form); the checker sees values only (C09_check_sees_values); model
-         layer, builder, sort and printer commute with re-reading the quantities.
-         Proofs/DecNormalForm.v, CheckQuant.v, PrintRequant.v.
+         (C09_decimal_normal_form), and a function of the value (C09_decimal_string_of_value);
+         model layer, builder, sort and printer commute with re-reading the quantities; the
+         checker (C09_check_sees_values) and the whole balance pipeline -- ComputePrices,
+         Valuate, Filter, CloseAccounts, Query.Into, the sort and the CSV and text renderers --
+         see the VALUES of quantities only (C09_balance_sees_values): a generic simulation of
+         Processor.Process under value-equal quantities; Mul/Sub/Cmp by values, Truncate and
+         DivRound by the arithmetic of big.Int.Quo (C09_div_of_values).
+         Proofs/DecNormalForm.v, CheckQuant.v, PrintRequant.v, QuantSim.v, QuantNum.v,
+         QuantReport.v, QuantStages.v, QuantValue.v, QuantText.v, QuantPrint.v.
      (c) printing permutes the denoted directives (C09_printed_is_permutation; then C05 gives check
          and balance invariance), the builder gives the printed days back, transaction.Compare is
          a total preorder and the sort idempotent (C09_sort_idem).
          Proofs/PrintRegroup.v, TxnOrder.v, PrintNormal.v.
+   NOT PROVED / weaker than one might wish:
+     - for failing balance runs only "both fail" ([~]), not the same error;
+     - [no_conflicting_prices] is inherited from C05's permutation theorem; journal.Print keeps the
+       order of a day's price directives, so the hypothesis is presumably not needed here (it
+       would take a variant of C05's ComputePrices stage lemma for equal price lists);
+     - for @accrue, input_lex asks directly that the period ends of the window lie in years
+       0000..9999 (a consequence of start and end lying there, but no monotonicity lemma for
+       year_of is available).
    Kept from before: layer 0 (the pinned printer is refuted; the repaired one passes on the
    witness and on a worked example, vm_compute through the model's parser), layer 1 (per
    directive at the model level), the model-level statements on [denote], and the exact
@@ -60,8 +65,9 @@ From Knut Require Import Model.Str Model.Dec Model.Date Model.Account Model.Ledg
 From Knut Require Import Spec.TableSpec Spec.PrintSpec.
 From Knut Require Import Proofs.PrintProofs.
 From Coq Require Import Permutation.
-From Knut Require Import Model.Check Proofs.OrderCmd Proofs.DecNormalForm Proofs.TxnOrder Proofs.CheckQuant Proofs.PrintRegroup
-     Proofs.PrintRequant Proofs.PrintNormal Proofs.PrintLex Proofs.PrintText Proofs.PrintLexInput.
+From Knut Require Import Model.Check Proofs.OrderCmd Proofs.DecEqProofs Proofs.DecNormalForm Proofs.TxnOrder Proofs.CheckQuant Proofs.PrintRegroup
+     Proofs.PrintRequant Proofs.PrintNormal Proofs.PrintLex Proofs.PrintText Proofs.PrintLexInput
+     Proofs.QuantSim Proofs.QuantNum Proofs.QuantReport Proofs.QuantValue Proofs.QuantPrint.
 Import ListNotations.
 Open Scope Z_scope.
 
@@ -89,21 +95,26 @@ Theorem C09_normal_form : forall l ss text,
 Proof. intros l ss text HL Hp. exact (print_normal_form l ss text (input_lex_ok ss HL) Hp). Qed.
 Print Assumptions C09_normal_form.
 
-(* C09_same_reports, partial.  FULL STATEMENT:
-     forall l ss text, input_lex ss -> no_conflicting_prices ss -> printed (print_cmd l) ss text ->
-       exists ss', reparse text = MOk ss' /\
-         (forall cfg, ceq eq (balance_csv cfg ss') (balance_csv cfg ss)) /\
-         (forall cfg tc, ceq eq (balance_text cfg tc ss') (balance_text cfg tc ss)).
-   Proved: the text is read back as [map rq_sdir ss1] for a permutation ss1 of the denoted
-   directives with exactly these reports.  Missing: the reports of [map rq_sdir ss1] are those of
-   ss1 (value-equal quantities; see the header). *)
-Theorem C09_same_reports_partial : forall l ss text,
+(* ... and whose balance reports are the journal's: the same CSV and text bytes, or both commands
+   fail (the error of a failing run may differ, C05_error_depends_on_order), for every
+   configuration (window, interval, --last, --diff, --close, valuation, mappings, filters, both
+   checkers, thousands, rounding).  [no_conflicting_prices] is C05's exclusion. *)
+Theorem C09_same_reports : forall l ss text,
   input_lex ss -> no_conflicting_prices ss -> printed (print_cmd l) ss text ->
-  exists ss1, reparse text = MOk (map rq_sdir ss1) /\ Permutation ss1 (denote ss) /\
-    (forall cfg, ceq eq (balance_csv cfg ss1) (balance_csv cfg ss)) /\
-    (forall cfg tc, ceq eq (balance_text cfg tc ss1) (balance_text cfg tc ss)).
-Proof. intros l ss text HL Hn Hp. exact (print_same_reports_upto_requant l ss text (input_lex_ok ss HL) Hn Hp). Qed.
-Print Assumptions C09_same_reports_partial.
+  exists ss', reparse text = MOk ss' /\
+    (forall cfg, ceq eq (balance_csv cfg ss') (balance_csv cfg ss)) /\
+    (forall cfg tc, ceq eq (balance_text cfg tc ss') (balance_text cfg tc ss)).
+Proof. intros l ss text HL Hn Hp. exact (print_same_reports l ss text (input_lex_ok ss HL) Hn Hp). Qed.
+Print Assumptions C09_same_reports.
+
+(* the three statements for one and the same re-read journal *)
+Theorem C09_roundtrip : forall l ss text,
+  input_lex ss -> no_conflicting_prices ss -> printed (print_cmd l) ss text ->
+  exists ss', reparse text = MOk ss' /\ accepted l ss' /\ printed (print_cmd l) ss' text /\
+    (forall cfg, ceq eq (balance_csv cfg ss') (balance_csv cfg ss)) /\
+    (forall cfg tc, ceq eq (balance_text cfg tc ss') (balance_text cfg tc ss)).
+Proof. intros l ss text HL Hn Hp. exact (print_roundtrip l ss text (input_lex_ok ss HL) Hn Hp). Qed.
+Print Assumptions C09_roundtrip.
 
 (* the hypothesis is satisfiable: the journal of C09_example (Unicode account name, two-line
    description, accrual, targets) *)
@@ -146,6 +157,27 @@ Theorem C09_check_sees_values : forall r D D', Forall2 day_q D D' ->
    (exists x, run_stage (check_proc_current r) check_init D' = COk x)).
 Proof. exact check_days_q. Qed.
 Print Assumptions C09_check_sees_values.
+
+(* Decimal.String is a function of the value *)
+Theorem C09_decimal_string_of_value : forall a b, dec_equal a b = true -> to_string a = to_string b.
+Proof. exact to_string_eqv. Qed.
+Print Assumptions C09_decimal_string_of_value.
+
+(* DivRound of value-equal arguments is the same record (Prices.Insert's 1/p, --thousands) *)
+Theorem C09_div_of_values : forall d d' d2 d2',
+  dec_equal d d' = true -> dec_equal d2 d2' = true -> div d d2 = div d' d2'.
+Proof. exact div_deqv. Qed.
+Print Assumptions C09_div_of_values.
+
+(* knut balance sees values only: two journals that load to the same period and to days that
+   agree in everything but the representation of quantities, prices and assertion amounts
+   ([day_v]) give the same CSV bytes -- or both fail -- for every configuration *)
+Theorem C09_balance_sees_values : forall cfg X X' b b',
+  load X = COk b -> load X' = COk b' ->
+  Forall2 day_v (b_days b) (b_days b') -> b_min b = b_min b' -> b_max b = b_max b' ->
+  ceq eq (balance_csv cfg X) (balance_csv cfg X').
+Proof. exact balance_csv_v. Qed.
+Print Assumptions C09_balance_sees_values.
 
 (* ------------------------------------------------------------------ (c) order *)
 
